@@ -202,6 +202,11 @@ class OpWorld(World):
     def known(self, t):
         self.__dict__.setdefault("known_refs", []).append(t)
 
+    def make_valmap(self, it, name):
+        o = self.make_refmap(it, name)
+        o.attrs["of"] = "val"
+        return o
+
     def make_refmap(self, it, name):
         """an (ordered) dict from user keys to subjects, known abstractly: `m` maps a key to its subject or to ABSENT,
         `vals` is the sequence of the values in iteration order (A-key: dict key equality is the equality of Val)"""
@@ -212,27 +217,39 @@ class OpWorld(World):
     def refmap_call(self, it, o, method, args):
         ctx = it.ctx
         m, vals = o.attrs["m"], o.attrs["vals"]
+        of_subjects = o.attrs.get("of", "subject") == "subject"
+
+        for _k in args[:1]:
+            if isinstance(_k, int) or (isinstance(_k, SV) and _k.kind == "int"):
+                # integer keys: distinct ints are distinct keys (ground instance of val2int(int2val(k)) == k)
+                ctx.assume(smt.val2int(it.to_val(_k)) == it.to_int(_k))
 
         def read(key):
             t = z3.Select(m, it.to_val(key))
-            ctx.assume(z3.Or(t == ABSENT, IS_SUBJ(t)))  # only subjects are ever stored (checked at every store)
+            if of_subjects:
+                ctx.assume(z3.Or(t == ABSENT, IS_SUBJ(t)))  # only subjects are ever stored (checked at every store)
             return t
+
+        def wrap(t):
+            return self.deref(it, "subject", t) if of_subjects else ValSV(t)
         if method == "get":
             t = read(args[0])
             if ctx.branch(t == ABSENT, f"{o.name}: key absent"):
                 return args[1] if len(args) > 1 else None
-            return self.deref(it, "subject", t)
+            return wrap(t)
         if method == "__getitem__":
             t = read(args[0])
             if ctx.branch(t == ABSENT, f"{o.name}: key absent"):
                 raise PyExc(it.make_exc("KeyError", "key"))
-            return self.deref(it, "subject", t)
+            return wrap(t)
         if method == "__contains__":
             return BoolSV(read(args[0]) != ABSENT)
         if method == "__setitem__":
             k, v = it.to_val(args[0]), it.to_val(args[1])
             h = self.harness
-            if h is not None and getattr(self, "side", "impl") == "impl":
+            if not of_subjects:
+                ctx.assume(v != ABSENT)  # (ABSENT is not a user value)
+            elif h is not None and getattr(self, "side", "impl") == "impl":
                 h.record(ctx, f"{h.step_uid}/{o.name}/only-subjects-are-stored-in-the-map", z3.And(IS_SUBJ(v), v != ABSENT), kind="frame",
                          detail="the map from keys to live groups holds subjects only (every value is sent the terminal notifications)")
             old = z3.Select(m, k)
@@ -250,7 +267,7 @@ class OpWorld(World):
             o.attrs["m"], o.attrs["vals"] = z3.Store(m, k, ABSENT), SEQ_WITHOUT(vals, old)
             return None
         if method == "values":
-            lst = ListObj(term=vals, elem="ref:subject")
+            lst = ListObj(term=vals, elem="ref:subject" if of_subjects else "val")
             self.live_views[lst.oid] = (o.name, lst)
             return lst
         if method == "__len__":
@@ -293,6 +310,12 @@ class OpWorld(World):
                     self.snaps["impl"].append(h.capture_impl())
                 elif h.cur_spec is not None:
                     self.snaps["spec"].append(h.capture_spec(h.cur_spec))
+
+    def to_chunk(self, it, subject, method, seq_term):
+        """`for v in <symbolic list of values>: subject.on_next(v)`: the whole sequence goes to that subject, in order"""
+        side = getattr(self, "side", "impl")
+        self.struct[side].append(("to*", subject.attrs["term"], method, seq_term))
+        self.events.append(("to*", side, method))
 
     def broadcast_general(self, it, st, env, lst):
         """a loop over a symbolic list of subjects whose body is not literally `x.m(args)`: run ONE iteration for an arbitrary
@@ -804,11 +827,25 @@ _helper("young_vals")(_seqfun_helper("young_vals", "val"))
 def _h_maps_to(it, args, kw):
     """maps_to(map, key, subject): the abstract map holds exactly this subject for the key"""
     mp, key, ref = args
+    if isinstance(key, int) or (isinstance(key, SV) and key.kind == "int"):
+        it.ctx.assume(smt.val2int(it.to_val(key)) == it.to_int(key))  # distinct ints are distinct keys
     if isinstance(mp, Opaque) and mp.kind == "refmap":
         return BoolSV(z3.Select(mp.attrs["m"], it.to_val(key)) == it.to_val(ref))
     if isinstance(mp, DictObj) and not mp.symbolic and not mp.d:
         return False
     raise Unsupported("maps_to on a concrete map")
+
+
+@_helper("has_key")
+def _h_has_key(it, args, kw):
+    mp, key = args
+    if isinstance(key, int) or (isinstance(key, SV) and key.kind == "int"):
+        it.ctx.assume(smt.val2int(it.to_val(key)) == it.to_int(key))
+    if isinstance(mp, Opaque) and mp.kind == "refmap":
+        return BoolSV(z3.Select(mp.attrs["m"], it.to_val(key)) != ABSENT)
+    if isinstance(mp, DictObj) and not mp.symbolic and not mp.d:
+        return False
+    raise Unsupported("has_key on a concrete map")
 
 
 @_helper("field")
@@ -953,6 +990,8 @@ def havoc_cell(it, ctx, env_or_obj, name, kind, get, set_):
     elif kind == "refmap":
         o = it.world.make_refmap(it, name)
         set_(name, o)
+    elif kind == "valmap":
+        set_(name, it.world.make_valmap(it, name))
     elif kind == "optdisp":
         # nothing yet, or the disposable of an earlier (previous) inner subscription
         if ctx.choose(2, f"{name}_is_none") == 0:
@@ -1312,6 +1351,9 @@ class OpHarness:
                                   detail=f"real code: {z3.simplify(a[1])}, spec: {z3.simplify(b[1])}")
                 if a[3] is not None or b[3] is not None:
                     ok &= self.record(ctx, oid + f"/{what}/{a[2]}/payload", (a[3] == b[3]) if (a[3] is not None and b[3] is not None) else False)
+            elif a[0] == "to*":
+                ok &= self.record(ctx, oid + "/window/receives-the-retained-elements-in-order", z3.And(a[1] == b[1], a[3] == b[3]) if a[2] == b[2] else False,
+                                  detail=f"real code: {z3.simplify(a[3])} to {z3.simplify(a[1])}; spec: {z3.simplify(b[3])} to {z3.simplify(b[1])}")
             elif a[0] == "down":
                 if a[1] != b[1]:
                     self.fail(ctx, oid + "/call-outs/order", f"real code hands {a[1]} downstream where the spec hands {b[1]}")
@@ -1386,9 +1428,15 @@ class OpHarness:
                 else:
                     raise Unsupported(f"family local kind {kind}")
                 genv.vars[n] = v
-            if running == name and own_env is not None:
+            if running is not None and own_env is not None:
+                # another member - of this or of another family - holds other objects than the running member
+                Frun = self.c.families[running]
                 for n in F.get("unique", ()):
-                    ctx.assume(it.to_val(genv.vars[n]) != it.to_val(it.lookup(own_env, n)))
+                    for n2 in Frun.get("unique", ()):
+                        if (running == name and n == n2) or (running != name and L.get(n, "").startswith("ref") and Frun.get("locals", {}).get(n2, "").startswith("ref")):
+                            e2 = own_env.lookup_env(n2)
+                            if e2 is not None:
+                                ctx.assume(it.to_val(genv.vars[n]) != it.to_val(e2.vars[n2]))
             k = it.lookup(genv, F["id_local"]) if F.get("id_local") else (genv.vars[F["id_var"]] if F.get("id_var") else ctx.fresh("other_k", "int"))
             before = self.check_inv(it, ctx, "", genv, s, extra={"k": k}, base=F["inv"])
             ctx.assume(_bt(before))
@@ -2100,7 +2148,8 @@ class OpHarness:
         if r is None:
             raise PathEnd()
         it, w, cells_env, s, handlers = r
-        outer = handlers.get(c.sources[0])
+        by = F.get("source", c.sources[0])  # the source whose elements create the members
+        outer = handlers.get(by)
         if outer is None or outer[0] is None:
             raise PathEnd()
         hname = ("on_next", "on_error", "on_completed")[slot]
@@ -2129,7 +2178,7 @@ class OpHarness:
                 it.call(outer[0], [inner], {})
             except PyExc:
                 raise PathEnd()
-            self.spec_call(it, s, "on_next", [Opaque("observer", "spec_out")] + ([0] if len(c.sources) > 1 else []) + [inner])
+            self.spec_call(it, s, "on_next", [Opaque("observer", "spec_out")] + ([list(c.sources).index(by)] if len(c.sources) > 1 else []) + [inner])
             self.in_handler = False
             ctx.results.clear()  # the creating step is verified as the outer on_next
         member = None
@@ -2165,7 +2214,9 @@ class OpHarness:
                             return r
                     e = e.parent
             return None
-        member_env = next((e for e in (own_env(x) for x in real_handlers) if e is not None), cells_env)
+        cand_envs = [e for e in (own_env(x) for x in real_handlers) if e is not None]
+        need = list(F.get("locals", {})) or ([F["id_local"]] if F.get("id_local") else [])
+        member_env = next((e for e in cand_envs if all(e.lookup_env(n) is not None for n in need)), None) or (cand_envs[0] if cand_envs else cells_env)
         if F.get("id_local"):
             # the member's identity is what its own closure holds (e.g. the key of its group)
             k = it.lookup(member_env, F["id_local"])
